@@ -142,7 +142,11 @@ def rsome_constraints(s, z, u=None, skip_via_late=False):
             out.append(rso.norm(w * (z - c), 1) <= p['r'])
         elif t == 'l2':
             c, B = np.array(p['c']), np.array(p['B'])
-            if p['style'] == 'norm':
+            if p['style'] == 'plainsel':      # a plain Euclidean ball over some of the components: norm(z[sel]) <= r
+                sel = p['sel']
+                zz = z[sel[0]:sel[-1] + 1] if sel == list(range(sel[0], sel[-1] + 1)) else z[sel]
+                out.append(rso.norm(zz if not np.any(c[sel]) else zz - c[sel]) <= p['r'])
+            elif p['style'] == 'norm':
                 out.append(rso.norm(B @ (z - c), 2) <= p['r'])
             elif p['style'] == 'sumsqr':
                 out.append(rso.sumsqr(B @ (z - c)) <= p['r'] ** 2)
